@@ -456,6 +456,11 @@ def rule_r8_directives(ctx: Ctx, rid: str = "C05.R8") -> None:
                 return A("UNION")
             if s == CUR + ".attributes":
                 return A("HAS_ATTRS")
+            if s in ("any((s.attributes for s in self._structs))", "any([s.attributes for s in self._structs])", "any((x.attributes for x in self._structs))"):
+                # some schema (the current one, or - in the response section - the request) already has attributes
+                return f_or(A("HAS_ATTRS"), f_and(A("IN_RESPONSE"), A("PREV_HAS_ATTRS")))
+            if s == "self._structs[0].attributes":
+                return f_or(f_and(f_not(A("IN_RESPONSE")), A("HAS_ATTRS")), f_and(A("IN_RESPONSE"), A("PREV_HAS_ATTRS")))
             if s == "self._is_deprecated":
                 return A("DEPRECATED")
             if s == "len(self._structs) > 1":
@@ -488,9 +493,11 @@ def rule_r8_directives(ctx: Ctx, rid: str = "C05.R8") -> None:
             for a in f_atoms(f):
                 if a not in used:
                     used.append(a)
-        extra = [a for a in used if a not in atoms]
+        optional = [a for a in used if a in ("IN_RESPONSE", "PREV_HAS_ATTRS") and a not in atoms]
+        extra = [a for a in used if a not in atoms and a not in optional]
         if extra:
             raise AnalysisError("%s: guard uses atoms outside the rule's vocabulary: %s" % (fn.qualname, extra))
+        atoms = list(atoms) + optional
         bad = []
         nonide = []
         for val in valuations(list(atoms), consistent):
